@@ -62,6 +62,11 @@ def prep_spec(wd):
 
 def write_cfg(path, base_cfg, overrides):
     """Copy a .cfg replacing 'CONSTANT name = value' lines named in overrides."""
+    # TLC's configuration language has no ".." : integer ranges are written out as sets
+    def lit(v):
+        m = re.fullmatch(r"\s*(\d+)\.\.(\d+)\s*", str(v))
+        return "{%s}" % ", ".join(str(i) for i in range(int(m.group(1)), int(m.group(2)) + 1)) if m else v
+    overrides = {k: lit(v) for k, v in overrides.items()}
     lines = open(base_cfg).read().splitlines()
     out, seen = [], set()
     for ln in lines:
